@@ -81,6 +81,7 @@ def parseCOp (ws : List String) : Option COp :=
   | ["idle", i] => i.toNat?.map .idle
   | ["cancelidle", i] => i.toNat?.map .cancelIdle
   | ["dropidle", i] => i.toNat?.map .dropIdle
+  | ["churn", n] => n.toNat?.map .churn
   | _ => none
 
 def copText : COp → String
@@ -103,6 +104,7 @@ def copText : COp → String
   | .setInterest k r w m => s!"setinterest {k} {interestText r w} {modeText m}"
   | .dropDisp k => s!"dropdisp {k}"
   | .idle i => s!"idle {i}" | .cancelIdle i => s!"cancelidle {i}" | .dropIdle i => s!"dropidle {i}"
+  | .churn n => s!"churn {n}"
 
 def parseRet (ws : List String) : Option Ret :=
   match ws with
